@@ -5,6 +5,7 @@ import (
 	"errors"
 	"math/rand"
 	"strings"
+	"sync"
 	"time"
 
 	"github.com/dgryski/go-wyhash"
@@ -98,7 +99,9 @@ type RedisPubsubPeers struct {
 	// since the pubsub subscription is still active.
 	Done chan struct{}
 
-	peers     *generics.MapWithTTL[string, string]
+	peers *generics.MapWithTTL[string, string]
+	// mut guards hash and callbacks: listen runs on one goroutine per message
+	mut       sync.Mutex
 	hash      uint64
 	callbacks []func()
 	sub       pubsub.Subscription
@@ -110,14 +113,18 @@ type RedisPubsubPeers struct {
 func (p *RedisPubsubPeers) checkHash() {
 	peers := p.peers.SortedKeys()
 	newhash := hashList(peers)
-	if newhash != p.hash {
-		p.hash = newhash
-		for _, cb := range p.callbacks {
+	p.mut.Lock()
+	changed := newhash != p.hash
+	p.hash = newhash
+	callbacks := p.callbacks
+	p.mut.Unlock()
+	if changed {
+		for _, cb := range callbacks {
 			go cb()
 		}
 	}
 	p.Metrics.Gauge("num_peers", float64(len(peers)))
-	p.Metrics.Gauge("peer_hash", float64(p.hash))
+	p.Metrics.Gauge("peer_hash", float64(newhash))
 }
 
 func (p *RedisPubsubPeers) listen(ctx context.Context, msg string) {
@@ -209,10 +216,13 @@ func (p *RedisPubsubPeers) Ready() error {
 				}
 				cancel()
 			case <-logTicker.Chan():
+				p.mut.Lock()
+				hash := p.hash
+				p.mut.Unlock()
 				p.Logger.Debug().WithFields(map[string]any{
 					"ids":       p.peers.SortedKeys(),
 					"peers":     p.peers.SortedValues(),
-					"hash":      p.hash,
+					"hash":      hash,
 					"num_peers": p.peers.Length(),
 					"self":      myaddr,
 				}).Logf("peer report")
@@ -262,6 +272,8 @@ func (p *RedisPubsubPeers) GetInstanceID() (string, error) {
 }
 
 func (p *RedisPubsubPeers) RegisterUpdatedPeersCallback(callback func()) {
+	p.mut.Lock()
+	defer p.mut.Unlock()
 	p.callbacks = append(p.callbacks, callback)
 }
 
